@@ -26,6 +26,11 @@ IdsOf(s) == LET F[k \in 0..Len(s)] == IF k = 0 THEN "" ELSE F[k-1] \o ent[s[k]].
 
 Choice(o) ==
     CASE canc'[o] # canc[o] -> ""
+      \* a wait left through the context (for cache Close: its deadline)
+      [] pc[o] \in {"GWCw", "GWL", "PWL", "RWL", "RSCw"} /\ canc[o]
+           /\ (\/ (pc'[o] = "done" /\ loc'[o].res = "ErrCtx")
+               \/ (Kind(o) = "Close" /\ pc[o] = "RSCw" /\ ent'[loc[o].e].gu # ent[loc[o].e].gu)
+               \/ (Kind(o) = "Close" /\ pc[o] = "RWL" /\ ~E(o).ld)) -> "ctx"
       [] pc[o] = "G3r" -> loc'[o].lo
       [] pc[o] = "T3" /\ pc'[o] # "panic" ->
            LET v == E(o).val
